@@ -220,6 +220,27 @@ function familyS (tier, opts = {}) {
   return { leaves, stats: r.stats }
 }
 
+// T: how MANY temporaries a block needs. Two statements, each with n operands that need a temporary, for every
+// pair (n1, n2): the number of injected names crosses 10 (two-digit suffixes) and, in the thorough tier, 100
+const T_KINDS = {
+  plus: (n) => Array.from({ length: n }, (_, i) => `o.m${i}()`).join(' + '),
+  args: (n) => 'a.concat(' + Array.from({ length: n }, (_, i) => `o.m${i}()`).join(', ') + ')',
+  tpl: (n) => '`' + Array.from({ length: n }, (_, i) => '${o.m' + i + '()}').join('|') + '`'
+}
+function familyT (tier, opts = {}) {
+  const ns = tier === 'thorough' ? [1, 2, 3, 4, 5, 6, 7, 8, 9, 10, 11, 12, 13, 52, 60] : [1, 2, 4, 5, 6, 7, 8, 9]
+  const r = enumerate([{ name: 'k1', symbols: Object.keys(T_KINDS), free: true }, { name: 'n1', symbols: ns, free: true }, { name: 'k2', symbols: Object.keys(T_KINDS), free: true }, { name: 'n2', symbols: ns, free: true }, { name: 'where', symbols: ['fnbody', 'block'], free: true }], {})
+  const leaves = []
+  for (const l of r.leaves) {
+    const p = l.pick
+    const body = `x = ${T_KINDS[p.k1](p.n1)}; y = ${T_KINDS[p.k2](p.n2)};`
+    const leaf = mkLeaf('T', { op: `${p.k1}${p.n1}>${p.k2}${p.n2}>${p.where}`, opkind: 'stmts' })
+    leaf.code = G.SCOPES.sloppy(p.where === 'block' ? `{ ${body} } return [x, y]` : `${body} return [x, y]`)
+    leaves.push(leaf)
+  }
+  return { leaves, stats: r.stats }
+}
+
 // P: operations whose operands are `+` expressions, under configurations with the plus operator DISABLED
 // (the operand is then not turned into a hook call by the child-first traversal)
 function familyP (tier, opts = {}) {
@@ -238,7 +259,7 @@ function familyP (tier, opts = {}) {
 function all (tier, opts = {}) {
   let leaves = []
   let stats = { states: 1, transitions: 0 }
-  const fams = { A: familyA, B: familyB, C: familyC, G: familyG, M: familyM, S: familyS, P: familyP }
+  const fams = { A: familyA, B: familyB, C: familyC, G: familyG, M: familyM, S: familyS, P: familyP, T: familyT }
   for (const f of (opts.families || ['A', 'B', 'C', 'G'])) {
     const r = fams[f](tier, opts[f] || {})
     leaves = leaves.concat(r.leaves)
@@ -251,4 +272,4 @@ function all (tier, opts = {}) {
   return { leaves: uniq, stats }
 }
 
-module.exports = { familyP, familyA, familyB, familyC, familyG, familyM, familyS, M_FNS, S_STMTS, all, REP_OPS, REP_OPS_Q, CONFIGS, mkLeaf }
+module.exports = { familyT, familyP, familyA, familyB, familyC, familyG, familyM, familyS, M_FNS, S_STMTS, all, REP_OPS, REP_OPS_Q, CONFIGS, mkLeaf }
